@@ -496,9 +496,42 @@ impl RustGenerator {
             .join("\n")
     }
 
+    /// Apply `rewrite` to the parts of a generated line that lie outside string literals.
+    /// The text of a literal comes from the program and must reach the output unchanged.
+    fn rewrite_outside_string_literals(line: &str, rewrite: impl Fn(&str) -> String) -> String {
+        let mut out = String::with_capacity(line.len());
+        let mut code = String::new();
+        let mut chars = line.chars();
+        while let Some(c) = chars.next() {
+            if c != '"' {
+                code.push(c);
+                continue;
+            }
+            out.push_str(&rewrite(&code));
+            code.clear();
+            out.push(c);
+            while let Some(c) = chars.next() {
+                out.push(c);
+                match c {
+                    '\\' => {
+                        if let Some(escaped) = chars.next() {
+                            out.push(escaped);
+                        }
+                    }
+                    '"' => break,
+                    _ => {}
+                }
+            }
+        }
+        out.push_str(&rewrite(&code));
+        out
+    }
+
     fn rewrite_infallible_generated_line(line: &str) -> String {
-        let line = line.replace("memory.", "self.memory.");
-        let line = line.replace('?', ".unwrap()");
+        let line = Self::rewrite_outside_string_literals(line, |code| {
+            code.replace("memory.", "self.memory.")
+                .replace('?', ".unwrap()")
+        });
         if let Some(rewritten) =
             Self::rewrite_generated_return(&line, "return Ok(", |prefix, inner, suffix| {
                 format!("{prefix}return {inner}{suffix}")
